@@ -499,6 +499,10 @@ func (fr *Frame) builtin(b *ssa.Builtin, c *ssa.CallCommon, args []*Val, argVals
 		case *types.Slice:
 			return fr.mkVal(sx("scap", x.T), types.Typ[types.Int])
 		}
+		if _, ok := argVals[0].Type().Underlying().(*types.Chan); ok {
+			fr.U().declFun("chan.cap", "(declare-fun chan.cap (Int) Int)")
+			return fr.mkVal(sx("chan.cap", x.T), types.Typ[types.Int])
+		}
 		v := fr.freshVal("cap", types.Typ[types.Int])
 		vc.assume(fr.reach, sx(">=", v.T, "0"))
 		return v
